@@ -44,7 +44,8 @@ func build(cp gen.CPath) *canvas.Path {
 			p.CubeTo(s.P[0][0], s.P[0][1], s.P[1][0], s.P[1][1], s.P[2][0], s.P[2][1])
 		case 'A':
 			a := s.Arc
-			p.ArcTo(a.Rx, a.Ry, a.RotDeg, a.Large, a.Sweep, a.Ex, a.Ey)
+			rrx, rry := a.ReqRadii()
+			p.ArcTo(rrx, rry, a.RotDeg, a.Large, a.Sweep, a.Ex, a.Ey)
 		}
 	}
 	if cp.Closed {
@@ -361,6 +362,40 @@ func main() {
 			}
 		}
 		if !okCase {
+			if _, changed := desc["builder_changed_arc"]; changed {
+				// ArcTo stored another arc than the one requested (the generator's, exact; for Shrink arcs after SVG's out-of-range
+				// correction): no exact model of the stored record is at hand, but the path still has to trace the requested arc, so
+				// points of that arc (own evaluation, float) must lie inside Bounds and FastBounds
+				worst, at := 0.0, ""
+				for _, g := range arcs {
+					cs, sn := float64(g.CsN)/float64(g.H), float64(g.SnN)/float64(g.H)
+					t0 := math.Atan2(float64(g.Us[1]), float64(g.Us[0]))
+					t1 := math.Atan2(float64(g.Ue[1]), float64(g.Ue[0]))
+					d := t1 - t0
+					if g.Sweep && d <= 0 {
+						d += 2 * math.Pi
+					} else if !g.Sweep && d >= 0 {
+						d -= 2 * math.Pi
+					}
+					if g.Us[2] == 0 {
+						continue // free arcs carry no unit-circle points
+					}
+					for k := 0; k <= 64; k++ {
+						t := t0 + d*float64(k)/64
+						ex, ey := g.Rx*math.Cos(t), g.Ry*math.Sin(t)
+						x, y := g.Cx+cs*ex-sn*ey, g.Cy+sn*ex+cs*ey
+						for _, bx := range []canvas.Rect{b, fb} {
+							out := math.Max(math.Max(bx.X0-x, x-bx.X1), math.Max(bx.Y0-y, y-bx.Y1))
+							if out > worst {
+								worst, at = out, fmt.Sprintf("(%v, %v)", x, y)
+							}
+						}
+					}
+				}
+				desc["requested_arc_outside_by"] = worst
+				desc["requested_arc_point"] = at
+				o.Emit(out.Case{I: i, Fam: cp.Family + "|builder-changed-arc", Coq: "", Desc: desc})
+			}
 			continue
 		}
 		wits := []string{witness(ws, 0, b.X0), witness(ws, 1, b.Y0), witness(ws, 2, b.X1), witness(ws, 3, b.Y1)}
